@@ -114,7 +114,7 @@ The file is `known_findings.json`; nothing is added to it at run time.
 
 SEEDS_INTRO = """Each change was written by a fresh sub-agent that saw only the property text and its own scratch worktree, confirmed by
 `tools/confirm_seed.sh` (demonstration passes on the pristine tree, fails with the patch, no new failure in the pinned suite) and stored under
-`seeded/<id>/`. Six rounds, 233 stored changes. `tools/psweep.sh` applies every stored change to a scratch copy of /repo (several in parallel; `tools/seedsweep.sh`
+`seeded/<id>/`. Seven rounds, 273 stored changes. `tools/psweep.sh` applies every stored change to a scratch copy of /repo (several in parallel; `tools/seedsweep.sh`
 does the same on /repo's working tree, one at a time), runs the owning check and removes the copy; at the time of writing every stored change is
 reported as VIOLATION by the quick tier of its check, with a failing input replayed on the real code. Where a check first missed a change it was
 strengthened - the generator was the gap nearly every time, an oracle clause a few times; no oracle was loosened:
@@ -148,6 +148,17 @@ strengthened - the generator was the gap nearly every time, an oracle clause a f
   in fragment-only and query-only references; C14 message/http bodies made of line breaks, empty lines and header-like lines; C15 a private non-English
   LC_TIME locale (built from C.utf8, activated through LOCPATH: the image has only C/POSIX) and instants handed over as aware datetime objects; C16 one element
   whose credentials change between two compositions (a stale cache).
+
+* round 7 (ids -12 .. -14; the agents were asked for less obvious routes: other entry points, state carried between messages, helper modules): C02 every
+  registered method that may carry a body (SEARCH) and tokens over the whole method alphabet; C03 a Trailer announced and none sent; C04 fields the composer
+  has defaults for, set by the caller to the empty value; C07 Content-Length with parameters / quoted / as a list, and the message preceded by another
+  (Content-Length or chunked) message on the same state machine; C08 `setdefault` in every letter case (new model operation); C09 cookie names that begin like an
+  attribute name (found F67), and a second reading of a field after the elements of the first were changed (a cache shared between collections); C10 the composed
+  text parsed into an object that held another URI, operands unchanged by `==`, dot and empty path segments (and, from a probe while waiting: F65, the host
+  position); C12 escapes with hex digits in mixed case, the reference handed to `join()` as URI object / tuple / keywords; C14 form bodies without a charset
+  parameter, one Body switched from one content coding to the other; C15 the expires attribute of Set-Cookie fields; C16 credentials given as non-ASCII
+  text, an element built from the parameters of another and then changed; C17 the list route `Headers.elements()` (found F66), verification against the whole
+  received field, URI perturbations behind the path; C18 comparison of a version with its text in every spelling (leading zeros), methods handed over as text.
 
 Stored patches are rebased when a `fix:` commit touches the same lines (noted in their notes.txt). Six changes are kept under `seeded/rejected/` and are not
 counted: C04-2, C12-1-superseded and C11-11 became harmless through the repairs F50 / F60 / F64 (their demonstrations pass with the patch applied); C06-9 and C07-10
